@@ -51,7 +51,9 @@ NA = {}
 
 CODEC_TEXT = ("contract-based deductive verification: every exported codec class's encode/decode is proved equal to an independent "
               "reference codec (spec/cip_codec.py) for all values / all byte strings of every length, path by path, by a VC generator "
-              "over the real source; composite constructors are proved on a finite set of type instances (stated in the evidence); "
+              "over the real source; Array / Struct are proved modularly against an abstract element type that carries only the codec "
+              "contract (every element type at once; array length / member count 0-3) and on a finite set of concrete type instances "
+              "(stated in the evidence); STRINGI, the PCCC string elements and arrays of bit strings are under contract too; "
               "parts the engine cannot reach are checked by a bounded native stand-in and never counted as proved")
 CLAIMED.update({
     "C06": ("proof", CODEC_TEXT + "; round trip = lemma decode_ref(encode_ref(v) ++ rest) over the reference functions plus real==reference contracts", "contracts + VC generation (pyvc) + z3", "DESIGN.md 3 (C06-C08), 9"),
@@ -126,7 +128,7 @@ CLAIMED.update({
     "C15": ("proof", "parse_connection_path / parse_cip_route are proved on constructed path strings -- symbolic host, symbolic TCP port numeral, "
             "every separator an independent symbolic character from {/ \\ ,}, port given by any alias or number 1..14, link given as a symbolic "
             "slot numeral or dotted quad -- to return the host, the port and a route whose encoding equals the reference route bytes computed "
-            "from the components (hence all spellings of one route give identical bytes); shapes: 0-2 hops in the quick tier, 3-4 in the "
+            "from the components (hence all spellings of one route give identical bytes); shapes: 0-2 hops in the quick tier, 3 in the "
             "thorough tier, with and without the Logix/SLC shortcuts; strings outside the grammar (odd segment count, unknown port name, "
             "link out of range or malformed, invalid TCP port) are proved to raise RequestError / DataError and never yield route bytes",
             "contracts over constructed-term strings (pyvc + z3)", "DESIGN.md 3 (C15), 9"),
@@ -150,28 +152,29 @@ CLAIMED.update({
             "connected data item <= the connection size and every non-fragmented or multi-service read solicits a reply <= that size "
             "(estimate >= actual), each request id lands in exactly one packet; write fragments tile the value (offsets from 0, contiguous, "
             "concatenation == value, each item <= size); each follow-up read fragment asks for the bytes received so far and the chunks "
-            "reassemble; Forward Open asks for the configured size. Bounds of the instances: 1-3 requests per call, <= 4 write fragments, "
+            "reassemble (a fragment reply that is not a valid reply is never spliced into a value); the size asked for in the accepted (Large) Forward Open on the wire equals the size the driver plans with, on both fall-back paths. Bounds of the instances: 1-3 requests per call, <= 4 write fragments, "
             "<= 3 read fragments (all sizes within them)", "contracts over symbolic sizes (pyvc + z3, linear integer arithmetic)",
             "DESIGN.md 3 (C04), 9"),
 })
 
 E2E = ("the orchestration methods are verified over an assumed transport for a finite set of concrete request lists (names, indices, counts; "
        "listed in the evidence) with every reply status and all reply data symbolic, on one representative well-formed tag database "
-       "(atomic, array, BOOL array, string, UDT with packed BOOL and hidden host member, program-scoped tag); the pieces in between are "
+       "(atomic, array, BOOL array, string, UDT with packed BOOL and hidden host member, program-scoped tag), on the multi-service path and on the "
+       "Micro800 one-request-per-frame path; the pieces in between are "
        "proved for all values: ")
 CLAIMED.update({
-    "C01": ("proof", E2E + "request parsing incl. BOOL-array index -> DWORD arithmetic for every index / count, tag request paths (C09), read and "
+    "C01": ("proof", E2E + "request parsing incl. BOOL-array index -> DWORD arithmetic for every index / count and bit numbers against the integer width, tag request paths (C09), read and "
             "fragmented-read message layouts, reply demultiplexing (C13), parse_read_reply for atomic / array / BOOL-array / string / UDT, "
             "StructTag and FixedSizeString decoding for all images, fragment reassembly (C04), bit and BOOL-range extraction. What is NOT "
             "covered: arbitrary tag databases (only the representative one and the generic layout instances) and request lists beyond the listed ones",
             "modular contracts + end-to-end contracts over symbolic replies (pyvc + z3)", "DESIGN.md 3 (C01), 9"),
-    "C02": ("proof", E2E + "encode_value (alignment, truncation, too-short lists, scalars), write / fragmented-write / multi-service message layouts, "
+    "C02": ("proof", E2E + "encode_value (alignment of BOOL-array index and count, truncation, too-short lists, scalars), write / fragmented-write / multi-service message layouts, "
             "read-modify-write masks exactly as wide as the tag for every bit with a lemma that the target's (old | or) & and changes exactly the "
             "addressed bits, message assembled once, StructTag / FixedSizeString encoders (truncation to capacity), fragment tiling (C04). "
             "Not covered: arbitrary databases / request lists beyond the listed ones; the target's memory model is the assumed rule, not a device",
             "modular contracts + lemmas over the assumed target rule (pyvc + z3)", "DESIGN.md 3 (C02), 9"),
     "C03": ("proof", E2E + "Tag truthiness for all values; one result per request in request order incl. duplicates, invalid requests (unknown tag / "
-            "member, malformed or out-of-range index, too-short or unencodable values, misaligned BOOL-array writes, bit writes on structures) yield "
+            "member, malformed or out-of-range index, too-short or unencodable values, misaligned BOOL-array writes, bit numbers beyond the integer width, bit writes on structures) yield "
             "falsy Tags with text and leave the other results untouched; several bits of one word merge into one read-modify-write whose result "
             "fans out; builders put every request id in exactly one packet (C04); no exception escapes read / write on these lists",
             "end-to-end contracts over symbolic replies (pyvc + z3)", "DESIGN.md 3 (C03), 9"),
@@ -180,11 +183,11 @@ CLAIMED.update({
             "(2 pages in the quick tier, 3 entries over 2 pages in the thorough tier); _create_tag is proved for all symbol-type / software-control "
             "bits on 0-3 dimensions; user-tag isolation is checked on a catalogue of symbol-name kinds against spec.user_visible; fragmented template "
             "reads reassemble for all chunk sizes with the right offsets and remaining sizes; tags_json is JSON-typed on the representative database. "
-            "_parse_template_data / member-info parsing is proved on two representative templates (a UDT with a packed BOOL and its hidden host "
-            "member, and a LEN/DATA string type) for all offsets, array lengths, bit numbers and sizes; NOT covered: arbitrary member-name lists, "
+            "_parse_template_data / member-info parsing is proved on three representative templates (a UDT with a packed BOOL and its hidden host "
+            "member, a LEN/DATA string type, and the predefined-type boundary with a symbolic template id) for all offsets, array lengths, bit numbers and sizes; NOT covered: arbitrary member-name lists, "
             "nested template fetches (_get_data_type recursion)",
             "contracts against the documented reply layouts (pyvc + z3)", "DESIGN.md 3 (C05), 9"),
-    "C10": ("proof", "typestate contracts: open, a connected operation from 'session only', close from every state of the driver invariant, "
+    "C10": ("proof", "typestate contracts: open, a connected operation from 'session only' and from 'already fell back to the standard Forward Open' (for every connection id the target may grant), close from every state of the driver invariant, "
             "__enter__ / __exit__ are each proved -- under every target policy (session granted / refused, large Forward Open accepted / refused, "
             "standard refused) and with a transport fault at ANY send / receive index (symbolic fault position, every call forks) -- to raise "
             "only library exceptions, to send nothing on a connection before RegisterSession and a successful Forward Open (large first, then "
